@@ -53,7 +53,28 @@ def run(ctx):
     pv = ed.methods["pvalue"]
     wheres = [c for c in A.calls_in(pv.node) if A.call_attr(c) == "where"]
     if len(wheres) != 1:
-        ctx.unrecognised(r1, pv, "pvalue", f"expected one indicator where(...), found {len(wheres)}")
+        # another spelling of the indicator (a boolean mask converted to float, a comparison summed directly ...): the whole
+        # method interpreted on five samples -- two above, one EQUAL to, two below the value -- must give 3/5
+        from .. import listnp
+        from ..alg import AutoRegion
+        from ..alg import RaisedInFragment as _RIF
+        try:
+            region = AutoRegion()
+            reps = {"s0": Fraction(3), "s1": Fraction(1), "s2": Fraction(0), "s3": Fraction(-1), "s4": Fraction(-2), "V": Fraction(0)}
+            region.update(reps)
+            samples = listnp.wrap([Poly.atom(n_) for n_ in ("s0", "s1", "s2", "s3", "s4")])
+            ext = listnp.externals()
+            ext["get_backend"] = lambda a, k: (Obj("tensorlib", {"name": "numpy", "precision": "64b"}), None)
+            out = Interp({"value": Poly.atom("V")}, {"samples": samples}, region, methods={k_: v_.node for k_, v_ in ed.methods.items()}, cls_name=ed.name, externals=ext).run(A.strip_docstring(pv.node.body))
+            got = to_poly(out[0] if isinstance(out, list) and len(out) == 1 else out)
+            if got == Poly.const(Fraction(3, 5)):
+                ctx.holds(r1, f"{CALC}::EmpiricalDistribution.pvalue [interpreted on 5 samples: 2 above, 1 equal, 2 below]", "3/5: ties count, divided by the number of samples")
+            else:
+                ctx.violated(r1, pv, "tail fraction", f"for five toy statistics of which two exceed the observed value and one EQUALS it the p-value is {got}, not 3/5 (sum over samples of 1[sample >= value] / number of samples; ties must count: the q=0 spike)", expected="3/5", found=str(got), node=pv.node)
+        except _RIF as e:
+            ctx.violated(r1, pv, "tail fraction", f"pvalue raises {e.exc_name} on five samples")
+        except (Undecided, KeyError, TypeError, ValueError, IndexError, AttributeError) as e:
+            ctx.unrecognised(r1, pv, "pvalue", f"expected one indicator where(...), found {len(wheres)}, and the method is not interpretable: {type(e).__name__}: {e}")
     else:
         w = wheres[0]
         for rep, want, lab in ((Fraction(1), 1, "sample > value"), (Fraction(0), 1, "sample == value"), (Fraction(-1), 0, "sample < value")):
@@ -231,7 +252,7 @@ def run(ctx):
             ctx.holds(r3, f"{PROB}::Simultaneous.sample", f"stitches through {split_recv[0]}, the viewer log_prob splits with")
         else:
             ctx.violated(r3, sm, c, "sampled data are stitched with a different viewer than the one log_prob splits with: the layout of pseudo-data differs from the layout the density expects", expected=f"{split_recv[0]}.stitch", node=c)
-        comp = c.args[0] if c.args else None
+        comp = A.expand_locals(sm.node, c.args[0]) if c.args else None  # the list may be named before it is stitched
         ok = isinstance(comp, (ast.ListComp, ast.GeneratorExp)) and A.unparse(comp.generators[0].iter) in ("self", "self._pdfobjs") and isinstance(comp.elt, ast.Call) and A.call_attr(comp.elt) == "sample" and comp.elt.args and "sample_shape" in A.names_loaded(comp.elt.args[0])
         if ok:
             ctx.holds(r3, f"{PROB}::Simultaneous.sample", "every constituent sampled with sample_shape, in constituent order")
